@@ -358,6 +358,7 @@ def run_engine(fdef, args):
     from pyvc.vals import SymRaise
     ctx = Ctx()
     ctx.start_path([])
+    ctx.ghost["minmax_semantics"] = True        # the meaning of min / max (opt-in per task in the proofs)
     ex = Exec(ctx, run_engine.repo, dict(headers.HEADER_CONTRACTS), (), {})
     pending = []
     try:
